@@ -68,7 +68,7 @@ func BadPtr(x float64) float64 {
 	return *p
 }
 
-func BadShiftSigned(k int) int { return k << 1 }
+func BadShiftSigned(k int) int { return k >> 1 }
 
 func BadFloat32(x float32) float32 { return x * 2 }
 
